@@ -108,6 +108,10 @@ def run_case(case):
         PLAN["task"][int(k)] = v
     if case.get("mp"):
         os.environ["CUPCAKE_ENABLE_MULTIPROCESSING"] = "1"
+        if case.get("start_method"):
+            # a user whose program selected another start method for its worker processes
+            import multiprocessing
+            multiprocessing.set_start_method(case["start_method"], force=True)
     else:
         os.environ.pop("CUPCAKE_ENABLE_MULTIPROCESSING", None)
     np.random.seed(case["rng_seed"])
@@ -141,6 +145,9 @@ def run_case(case):
     finally:
         if cov is not None:
             cov.stop()
+        if case.get("mp") and case.get("start_method"):
+            import multiprocessing
+            multiprocessing.set_start_method("fork", force=True)
     run.cov = cov
     run.phases = list(REC.phases)
     run.label_steps = list(REC.label_steps)
